@@ -51,15 +51,15 @@ type Entry struct {
 	SentBrief string   `json:"sent,omitempty"`
 
 	// aws
-	ASG         string   `json:"asg,omitempty"`
-	ASGs        []string `json:"asgs,omitempty"`       // DescribeAutoScalingGroups names
-	IDs         []string `json:"ids,omitempty"`        // instance ids in the call
-	Value       int64    `json:"value,omitempty"`      // SetDesiredCapacity value / fleet total
-	Flag        *bool    `json:"flag,omitempty"`       // ShouldDecrement / HonorCooldown
-	PreDesired  int64    `json:"preDesired,omitempty"` // real desired capacity before the call
-	PreMin      int64    `json:"preMin,omitempty"`
-	PreMax      int64    `json:"preMax,omitempty"`
-	Returned    []string `json:"returned,omitempty"` // instance ids returned (CreateFleet)
+	ASG         string    `json:"asg,omitempty"`
+	ASGs        []string  `json:"asgs,omitempty"`       // DescribeAutoScalingGroups names
+	IDs         []string  `json:"ids,omitempty"`        // instance ids in the call
+	Value       int64     `json:"value,omitempty"`      // SetDesiredCapacity value / fleet total
+	Flag        *bool     `json:"flag,omitempty"`       // ShouldDecrement / HonorCooldown
+	PreDesired  int64     `json:"preDesired,omitempty"` // real desired capacity before the call
+	PreMin      int64     `json:"preMin,omitempty"`
+	PreMax      int64     `json:"preMax,omitempty"`
+	Returned    []string  `json:"returned,omitempty"` // instance ids returned (CreateFleet)
 	FleetDetail *FleetReq `json:"fleet,omitempty"`
 
 	Names   []string `json:"names,omitempty"`   // marker.DeleteNodes: node names
